@@ -152,6 +152,19 @@ CHECKS = {
          "transport, TLC. Up to 3 concurrent streams from 2 proxies; scripts of length 3 exhaustively sampled plus random walks of length 12.",
     technique="TLA+ spec + TLC; TLC-generated scripts replayed into the real daemon with a virtual clock; TLC trace validation (replica monitor)",
     ref="6/C10"),
+ "C16": dict(
+    category="model_checking",
+    text="Registry.tla gives the meaning of register (explicit / colliding / generated ids, force, weak), unregister by id or by object and "
+         "garbage collection of weakly registered objects as operators over the id table, with a model TLC checks for its design invariants; "
+         "Gen_Registry.tla walks the model and interleaves observations (call(id), listing, return-object, uriFor); each history runs on a "
+         "fresh real daemon over the in-memory transport with serpent, json, msgpack and marshal: target objects report which of them served "
+         "a call, returned objects are classified as proxy (and called through) or value; TLC replays the history through the operators "
+         "(Trace_Registry.tla) and requires every outcome to be the model's.",
+    note="Trusted: object identity = the number each target reports; 'by value' seen through a dict-to-class converter registered by the harness; "
+         "in-memory transport; TLC. force is generated only for the two uses the statement covers; marshal has no auto-proxying and is "
+         "checked for reachability and listing only.",
+    technique="TLA+ spec + TLC; TLC-generated histories replayed into a real daemon; TLC trace validation (replica monitor)",
+    ref="6/C16"),
 }
 NOT_YET = {}
 ALL = ["C%02d" % i for i in range(1, 21)]
